@@ -128,6 +128,45 @@ def build_contrib_renderer(m, prefix, module, qual):
     return r
 
 
+def native_search(c, target, clause, model, cm, max_len=3, budget=40000):
+    """Smallest input (strings over a small alphabet, small ints) on which the real function breaks
+    the clause while every precondition holds natively.  A replay aid only: never a verdict."""
+    import itertools
+    chars = set(' \t\n>a-1.')
+    for v in cm.values():
+        if isinstance(v, str):
+            chars |= set(v[:6])
+    chars = sorted(chars)[:10]
+    strings = ['']
+    for n in range(1, max_len + 1):
+        strings += [''.join(t) for t in itertools.product(chars, repeat=n)]
+    doms = []
+    names = []
+    for (pn, pt, *_r) in c.params:
+        k = pt.key()
+        if k.startswith('Obj['):
+            continue
+        names.append(pn)
+        doms.append(strings if k == 'Str' else ([0, 1, 2, 3, -1] if k == 'Int' else [False, True]))
+    tried = 0
+    for combo in itertools.product(*doms):
+        tried += 1
+        if tried > budget:
+            return None
+        args = dict(zip(names, combo))
+        try:
+            if not all(eval_clause(rq[0] if isinstance(rq, tuple) else rq, model, args, args) for rq in c.requires):
+                continue
+            observed = target(**args)
+            post = dict(args)
+            post['result'] = observed
+            if not eval_clause(clause, model, args, post):
+                return {'args': args, 'observed': observed}
+        except Exception:
+            continue
+    return None
+
+
 def replay(pid, ob, repo):
     from contracts import registry
     model = registry.model()
@@ -234,6 +273,19 @@ def replay(pid, ob, repo):
             return info
         info['clause_value'] = bool(ok)
         info['reproduced'] = not ok
+        if ok and all((pt is not None and pt.key() in ('Str', 'Int', 'Bool')) or (pt is not None and pt.key().startswith('Obj['))
+                      for (_pn, pt, *_r) in c.params):
+            # the counter-model does not replay (string functions such as strip are only partially
+            # axiomatised, so a model may choose results CPython never gives): look for a real failing
+            # input of the real function among short strings over the model's characters
+            found = native_search(c, target, clause, model, cm)
+            if found is not None:
+                info['solver_model_replayed'] = False
+                info['inputs'] = {k: repr(v) for k, v in found['args'].items()}
+                info['observed'] = repr(found['observed'])[:300]
+                info['clause_value'] = False
+                info['reproduced'] = True
+                info['found_by'] = 'native enumeration of short inputs after the counter-model failed to replay'
         return info
     except Exception:
         return {'reproduced': False, 'error': traceback.format_exc()[-1200:]}
